@@ -52,5 +52,18 @@ C18b C18
 C19b C19
 C19b C06
 C20b C20
+C01a C10
+C01d C01
+C02d C02
+C03d C03
+C06d C06
+C12d C12
+C13d C13
+C14d C14
+C16d C16
+C17d C17
+C18d C18
+C19d C19
+C20d C20
 LIST
 cat $out
